@@ -206,8 +206,16 @@ def _known_keys():
         return set()
 
 
+_SHRINK_STATE = {"done": 0}
+_MAX_SHRINKS_PER_SHARD = 2
+
+
 def _make_shrinker(family_name):
     def shrink(case, still_fails):
+        # one replay file is written per mechanism key, so shrinking every failing case of a shard is wasted work
+        # (and, when an edit breaks most cases, it is what makes the quick tier slow)
+        if _SHRINK_STATE["done"] >= _MAX_SHRINKS_PER_SHARD:
+            return case
         # Shrinking is best effort and costs ~100 re-runs: skip it when every violation of the case
         # already has a pinned (small) witness in known_findings.d/C16.json.
         import os
@@ -219,6 +227,7 @@ def _make_shrinker(family_name):
             r = FAMILIES[family_name].run(case)
             if r.violations and all(v.key() in known for v in r.violations):
                 return case
+        _SHRINK_STATE["done"] += 1
         return _shrink_clients(case, still_fails)
 
     return shrink
@@ -236,7 +245,7 @@ def _shrink_clients(case, still_fails):
         ]
         return c2
 
-    best = ddmin(flat, lambda items: still_fails(build(items)), max_tests=150)
+    best = ddmin(flat, lambda items: still_fails(build(items)), max_tests=120)
     out = build(best)
     for opt in ("warmer", "prewarm"):
         if out.get(opt):
@@ -699,5 +708,5 @@ FAMILIES = {
 
 BUDGET = {
     "quick": {"cached": 3000, "multitier": 1200, "softttl": 2000, "pagecache": 600},
-    "thorough": {"cached": 60000, "multitier": 15000, "softttl": 20000, "pagecache": 5000},
+    "thorough": {"cached": 80000, "multitier": 25000, "softttl": 40000, "pagecache": 10000},
 }
